@@ -31,6 +31,8 @@ def main():
     meta = {"id": "%s-m%s" % (prop, i), "property": prop, "source": "independent sub-agent given only the property text and a scratch worktree",
             "confirmed": {}, "checks": {}}
     tags = "-tags verif" if "go:build verif" in open(demo).read() else ""
+    if prop == "C17":
+        tags += " -race"
     wt = tempfile.mkdtemp(prefix="intake.", dir="/tmp")
     os.rmdir(wt)
     rc, o = sh("git -C /repo worktree add -q %s HEAD" % wt)
